@@ -600,8 +600,9 @@ void Ports::dispatch(const char *m, rtosc::RtData &d, bool base_dispatch) const
                 if(!port.ports)
                     d.matches++;
 
-                //Append the path
-                if(strchr(port.name,'#')) {
+                //Append the path: what the message spells where the name
+                //is a pattern, the name's own text otherwise
+                if(strchr(port.name,'#') || strchr(port.name,'{')) {
                     const char *msg = m;
                     char       *pos = old_end;
                     while(*msg && msg != m_end)
